@@ -253,3 +253,41 @@ theorem lisomapPostD_eq [DecidableEq K] (B : DMat nl N K) (V : DMat nl d K) (q :
 
 end
 end TapkeeVerif.Landmarks
+
+/-! ## contracts of the external kernels and the specification vocabulary of the theorems (core Lean only) -/
+namespace TapkeeVerif.Landmarks
+open TapkeeVerif
+section
+variable {K : Type} [Add K] [Sub K] [Mul K] [Zero K]
+variable {n m d : Nat}
+
+/-- eigen-relation `B V = V diag(lam)` (what the residual check of the certificate tests) -/
+def IsEig (B : Mat n n K) (V : Mat n d K) (lam : Vec d K) : Prop :=
+  ∀ a i, (sumFin n fun b => B a b * V b i) = lam i * V a i
+
+/-- `Vᵀ V = 1` -/
+def IsOrthonormal [One K] (V : Mat n d K) : Prop :=
+  ∀ i j, (sumFin n fun a => V a i * V a j) = if i = j then 1 else 0
+
+/-- `B = V diag(lam) Vᵀ`: the selected eigenpairs carry all of `B` (for an orthonormal eigen-system with nonzero
+    eigenvalues this says `rank B ≤ d`) -/
+def IsFactored (B : Mat n n K) (V : Mat n d K) (lam : Vec d K) : Prop :=
+  ∀ a b, B a b = sumFin d fun i => V a i * lam i * V b i
+
+/-- `s` is what `sqrt` returned for `lam`: `s i * s i = lam i` -/
+def IsSqrt (s lam : Vec d K) : Prop := ∀ i, s i * s i = lam i
+
+/-- `q` is what `sqrt(sqrt(·))` returned for `lam` -/
+def IsFourthRoot (q lam : Vec d K) : Prop := ∀ i, (q i * q i) * (q i * q i) = lam i
+
+/-- squared Euclidean distance between rows `x`, `y` of a coordinate matrix -/
+def sqDistRows (X : Mat n m K) (x y : Fin n) : K := sumFin m fun k => (X x k - X y k) * (X x k - X y k)
+
+/-- the callback returns Euclidean distances of the rows of `X` (only its square is ever used) -/
+def IsEuclidean (δ : Mat n n K) (X : Mat n m K) : Prop := ∀ x y, δ x y * δ x y = sqDistRows X x y
+
+/-- Gram matrix of the rows `Y Yᵀ` — the level at which embeddings are compared ("up to column signs") -/
+def gramRows (Y : Mat n d K) : Mat n n K := fun x y => sumFin d fun i => Y x i * Y y i
+
+end
+end TapkeeVerif.Landmarks
